@@ -72,7 +72,7 @@ func (x *Exec) chanEvent(fr *Frame, st *State, what string, c, v *Term, ins ssa.
 		if m.Callee != "chan:"+what {
 			continue
 		}
-		env := &SpecEnv{x: x, vars: map[string]SVal{}, st: st, old: fr.top.entry, pkg: fr.top.fn.Pkg.Pkg, lets: map[string]*Expr{}, free: x.freeOf[con]}
+		env := &SpecEnv{x: x, vars: map[string]SVal{}, st: st, old: fr.top.entry, pkg: fr.top.fn.Pkg.Pkg, lets: map[string]*Expr{}, free: x.freeOf[con], fr: fr.top}
 		for i, p := range con.Params {
 			if i < len(fr.top.params) && i < len(fr.top.fn.Params) {
 				env.vars[p] = SVal{T: fr.top.params[i].T, GT: fr.top.fn.Params[i].Type()}
@@ -424,8 +424,10 @@ func init() {
 	// contexts ---------------------------------------------------------------------------------
 	ctxDerive := func(name string, noCancel, expires bool) ruleFn {
 		return func(x *Exec, fr *Frame, st *State, ins ssa.Instruction, sig *types.Signature, args []Value) Value {
-			c := x.freshVal(st, name, sig.Results().At(0).Type())
-			x.assume(st, Not(Eq(Acc(c.T, 0), Int(0))))
+			// a derived context is a new object
+			tag := Fresh(name+"tag", "Int")
+			x.assume(st, Gt(tag, Int(0)))
+			c := Value{T: Mk(sortIface, tag, x.newRef(st))}
 			id := Acc(c.T, 1)
 			parent := Acc(args[0].T, 1)
 			if noCancel {
